@@ -109,6 +109,22 @@ CHECKS = {
                      "explored path of each probed load against the reference system of the base (InkHostAbs rule Valid).",
                 note="two builds of the harness (feature off / on); a defect common to both loaders is out of reach here",
                 technique="TLA+ trace validation (InkHostTrace/InkHostAbs): default loader as base, streaming loader / re-serialised documents as subject"),
+    "C04": dict(level=MC, ref="5/C04",
+                text="(1) TLC enumerates arithmetic expression trees over the 32-bit boundary pool with their values under the "
+                     "specification Int32/InkValue (wrap-around, truncating division, zero divisor = story error); each is "
+                     "compiled and played by the debug and the release build and must give the specified value / a reported "
+                     "error in both. (2) TLC validates random host-call histories on fault-prone generated programs and corpus "
+                     "mutants: no call ends in a panic or abort, and after reset_state a complete base path plays as in the base "
+                     "run (InkHostAbs rule ResetA).",
+                note="Int32 laws are model-checked separately (Int32MC); histories are random, not exhaustive",
+                technique="TLC-enumerated expressions replayed on both build profiles + TLA+ trace validation of fault histories"),
+    "C07": dict(level=MC, ref="5/C07",
+                text="The native operators of Ink are transcribed into the TLA+ module InkValue (coercion ladder, wrap-around "
+                     "ints, dyadic floats, strings as code points, list algebra over sets with origin tracking, admissible sets "
+                     "for ties). TLC enumerates every unary and binary operator over every pair of leaves of the pools and a "
+                     "slice of depth-2 trees; each tree is compiled and played, stored value and printed text are compared.",
+                note="floats only where exactly representable; float remainder, POW beyond small integers, random functions: no claim",
+                technique="TLC enumeration of expression trees over spec InkValue, replayed through compiler + runtime"),
 }
 
 NOT_YET = {}
